@@ -1,0 +1,47 @@
+//go:build verif
+
+package syntax
+
+// Verification hook for property C14 (parsing is faithful to the grammar):
+// exposes the token stream of the real scanner. Add-only; compiled only
+// with -tags verif.
+
+import "math/big"
+
+// A VerifToken is one token produced by the scanner together with the
+// value the scanner associated with it.
+type VerifToken struct {
+	Tok    Token
+	Raw    string
+	Pos    Position
+	Int    int64
+	BigInt *big.Int
+	Float  float64
+	String string
+}
+
+// VerifTokens runs the real scanner over src and returns every token up
+// to and including EOF (or the tokens before the error, plus the error).
+func VerifTokens(src []byte) (toks []VerifToken, err error) {
+	sc, err := newScanner("verif", src, false)
+	if err != nil {
+		return nil, err
+	}
+	defer sc.recover(&err)
+	for {
+		var val tokenValue
+		tok := sc.nextToken(&val)
+		toks = append(toks, VerifToken{
+			Tok:    tok,
+			Raw:    val.raw,
+			Pos:    val.pos,
+			Int:    val.int,
+			BigInt: val.bigInt,
+			Float:  val.float,
+			String: val.string,
+		})
+		if tok == EOF {
+			return toks, nil
+		}
+	}
+}
